@@ -561,6 +561,17 @@ func (net *Net) InjectProposal(k int, h int64, r, pol int32, b *types.Block, ps 
 	return id
 }
 
+// InjectProposalAs publishes a proposal of faulty validator k that names block id `id` and sends the parts ps with it,
+// whatever block those parts encode (a proposal may lie about the hash of the block its part-set header commits to).
+func (net *Net) InjectProposalAs(k int, h int64, r, pol int32, id types.BlockID, ps *types.PartSet, only map[int]bool) {
+	prop := net.MakeProposal(k, h, r, pol, id)
+	p := net.AddPacket(k, true, &consensus.ProposalMessage{Proposal: prop}, only)
+	net.Logf("byz %d injects #%d proposal h=%d r=%d pol=%d %s (hash as stated by the proposer) only=%v", k, p.ID, h, r, pol, short(id.Hash), keys(only))
+	for i := 0; i < int(ps.Total()); i++ {
+		net.AddPacket(k, true, &consensus.BlockPartMessage{Height: h, Round: r, Part: ps.GetPart(i)}, only)
+	}
+}
+
 // InjectVote publishes a vote signed by faulty key k.
 func (net *Net) InjectVote(k int, typ tmproto.SignedMsgType, h int64, r int32, id types.BlockID, only map[int]bool) *Packet {
 	v := net.MakeVote(k, typ, h, r, id, time.Now().UTC())
